@@ -241,3 +241,27 @@ def h_unroll_values(V, sym, case):
     r = V.call(yastn.contract_with_unroll, *args, unroll=unroll, optimize=path)
     V.check_equal('unrolled:equals-numpy', np.asarray(V.call(r.to_numpy, legs={0: li, 1: ll.conj()})).ravel().tolist(), want.ravel().tolist())
     V.check('unrolled:same-legs-and-charge-as-plain', r.get_legs() == plain.get_legs() and r.n == plain.n)
+    # "for every admissible contraction path": both pairwise orders of the chain (one of them leaves a pending transpose on the partial result)
+    for pth in ([(0, 1), (0, 1)], [(1, 2), (0, 1)]):
+        out = V.outcome(yastn.contract_with_unroll, *args, unroll=unroll, optimize=pth)
+        V.check(f'path{pth}:accepted', out.exc is None)
+        if out.exc is None:
+            rp = out.value
+            V.check(f'path{pth}:same-legs-and-charge-as-plain', rp.get_legs() == plain.get_legs() and rp.n == plain.n)
+            if rp.get_legs() == plain.get_legs():
+                V.check_equal(f'path{pth}:equals-numpy', np.asarray(V.call(rp.to_numpy, legs={0: li, 1: ll.conj()})).ravel().tolist(), want.ravel().tolist())
+    # an open index that is unrolled while ANOTHER output leg is fused: the fusion survives
+    A3 = symbolic_tensor(V, 'f', sym, [lj, lk.conj(), ll.conj()])
+    if V.symbolic:
+        A3 = A3._replace(config=A3.config._replace(backend=prox))
+    F3 = V.call(A3.fuse_legs, axes=(0, (1, 2)), mode='hard')
+    args2 = (A, ('i', 'j'), F3, ('j', 'J'), ('i', 'J'))
+    ref2 = V.call(yastn.ncon, [A, F3], [(-0, 1), (1, -1)])
+    out = V.outcome(yastn.contract_with_unroll, *args2, unroll={'i': 2}, optimize=[(0, 1)])
+    V.check('fused-output-leg:accepted', out.exc is None)
+    if out.exc is None:
+        r2 = out.value
+        V.check('fused-output-leg:same-legs-(fusion-kept)-as-ncon', r2.get_legs() == ref2.get_legs() and r2.n == ref2.n)
+        if r2.get_legs() == ref2.get_legs():
+            lg2 = {0: li, 1: ref2.get_legs(axes=1)}
+            V.check_equal('fused-output-leg:equals-ncon', np.asarray(V.call(r2.to_numpy, legs=lg2)).ravel().tolist(), np.asarray(V.call(ref2.to_numpy, legs=lg2)).ravel().tolist())
